@@ -21,10 +21,13 @@ LEVEL_RULE = (
     "(cases within 1 kt of a decision threshold are ambiguous). Distinct = distinct message hashes."
 )
 EXHAUSTIVE_SUBDOMAINS = ["each status rule x each register (one violated rule at a time)", "DF17 type codes 0..31"]
-ASSUMPTIONS = ["out-of-envelope values are not judged (only acceptance inside the envelope is required)",
+ASSUMPTIONS = ["out-of-envelope values are not judged (only acceptance inside the envelope is required), with one exception (T5): a DF20 "
+               "BDS 6,0-shaped payload whose IAS is >= 60 kt (three times the documented 20 kt tolerance) away from the Mach-consistent "
+               "value at the altitude the frame itself reports must not be inferred as BDS60",
                "T1 observes the isXX predicates of the repository itself; their soundness/completeness is what T2/T3 judge",
                "DF20 BDS 6,0 contents are generated with IAS within 10 kt of the Mach-consistent value at the frame's altitude"]
-REQUIRED = ["t0_random", "t1_df17", "t1_commb", "t1_empty", "t4_none", "t4_decided50", "t4_decided60", "t4_both"] + \
+REQUIRED = ["t0_random", "t1_df17", "t1_commb", "t1_empty", "t4_none", "t4_decided50", "t4_decided60", "t4_both", "t5_alt_le0",
+            "t5_alt_pos"] + \
            ["t2_BDS%s" % r for r in ("10", "17", "20", "30", "40", "44", "45", "50", "60")] + \
            ["t3_BDS%s" % r for r in ("10", "17", "20", "30", "40", "44", "45", "50", "60")]
 
@@ -442,7 +445,48 @@ def m_t4(ctx, case):
         ctx.nontrivial(("t4", hx, spd, trk, alt))
 
 
-MONITORS = {"t0": m_t0, "t2": m_t2, "t3": m_t3, "t4": m_t4}
+def m_t5(ctx, case):
+    """DF20: a BDS 6,0-shaped payload whose IAS is grossly (>= 60 kt) inconsistent with its Mach number at the altitude the
+    frame itself reports is never inferred as BDS60 (the altitude-dependent format rule of is60, judged with a 3x margin)"""
+    from pyModeS import bds
+    IS = isfuncs()
+    rng = ctx.rng
+    for _ in range(case["n"]):
+        # altitude classes: ordinary, at/below 0 ft (Q code N<=40), Gillham (100-ft) codes
+        c = rng.random()
+        if c < 0.5:
+            n = rng.randrange(41, 1800)
+            altft, code = n * 25 - 1000, ralt.q_code13(n)
+        elif c < 0.8:
+            n = rng.randrange(0, 41)
+            altft, code = n * 25 - 1000, ralt.q_code13(n)
+        else:
+            altft = rng.choice(list(range(-1200, 800, 100)) + list(range(1000, 60000, 1300)))
+            code = ralt.gillham_code13(altft)
+        m = rng.randint(60, 250)
+        cas = isa.mach2cas(m * 2.048 / 512.0, altft * isa.FT) / isa.KTS
+        off = rng.choice((-1, 1)) * rng.uniform(60, 250)
+        ias = int(round(cas + off))
+        if not 0 <= ias <= 500:
+            ias = int(round(cas - off))
+        if not 0 <= ias <= 500 or abs(ias - cas) < 60:
+            continue
+        mb, _ = b60(rng, 21, True)
+        mb = put(put(mb, 25, 34, m), 14, 23, ias)
+        hx = commb_hex(ctx, mb, 20, code)
+        r = call(bds.infer, hx, rng.random() < 0.5)
+        q = call(IS["BDS60"], hx)
+        ctx.ev(2)
+        if r[0] != "ok":
+            ctx.violation("infer-raises", frame=hx, observed=r[1:])
+        elif (r[1] is not None and "BDS60" in str(r[1]).split(",")) or q == ("ok", True):
+            ctx.violation("gross-mach-ias-inconsistency-reported-as-BDS60", frame=hx, altitude_ft=altft, mach=m * 0.004, ias=ias,
+                          cas_of_mach=round(cas, 1), infer=r[1], is60=q[1:])
+        ctx.hit("t5_alt_le0" if altft <= 0 else "t5_alt_pos")
+        ctx.nontrivial(("t5", hx))
+
+
+MONITORS = {"t0": m_t0, "t2": m_t2, "t3": m_t3, "t4": m_t4, "t5": m_t5}
 
 
 def sample_data():
@@ -506,4 +550,8 @@ def cases(ctx):
     for k in range(32 if quick else 512):
         if ctx.mine(i):
             yield "t4", {"n": 1500 if quick else 6000}
+        i += 1
+    for k in range(16 if quick else 128):
+        if ctx.mine(i):
+            yield "t5", {"n": 400 if quick else 2000}
         i += 1
